@@ -22,6 +22,7 @@ import props   # noqa: E402
 REPO = os.environ.get("VERIF_REPO", "/repo")
 WORK = os.environ.get("VERIF_WORK", "/var/tmp/ipt-verif")
 ENV = dict(os.environ, CARGO_NET_OFFLINE="true", CARGO_TERM_COLOR="never")
+MEM_BUDGET_GB = float(os.environ.get("VERIF_MEM_GB", "44"))
 KANI_FLAGS = ["-Z", "function-contracts", "-Z", "stubbing", "-Z", "loop-contracts",
               "-Z", "unstable-options"]
 
@@ -88,6 +89,11 @@ def classify_kani(res, err, ob):
     checks = res.get("checks", [])
     status = res.get("status")
     fails = [c for c in checks if c.get("status") == "Failure"]
+    if ob.get("ignore_desc"):
+        # clauses that belong to another property sharing this harness
+        fails = [c for c in fails if not re.search(ob["ignore_desc"], c.get("description") or "")]
+        if status != "Success" and not fails and checks and not (err and err.get("exit_status") in ("timeout", "out_of_memory")):
+            status = "Success"
     undet = [c for c in checks if c.get("status") in ("Undetermined", "SolverError")]
     covers = [c for c in checks if "VACUITY-GUARD reachable" in (c.get("description") or "")]
     if err and err.get("exit_status") in ("timeout", "out_of_memory"):
@@ -123,18 +129,30 @@ def run_kani(scr, obs, jobs, logdir):
     groups = {}
     for ob in obs:
         groups.setdefault(ob["cap"], []).append(ob)
-    first = True
+    # one Kani batch at a time machine-wide (CBMC needs 1-8 GB per obligation; 62 GB, no swap)
+    os.makedirs(WORK, exist_ok=True)
+    glock = open(os.path.join(WORK, ".kani-global.lock"), "w")
+    fcntl.flock(glock, fcntl.LOCK_EX)
+    try:
+        return _run_kani_locked(scr, groups, jobs, logdir, results)
+    finally:
+        fcntl.flock(glock, fcntl.LOCK_UN)
+
+
+def _run_kani_locked(scr, groups, jobs, logdir, results):
     for cap, group in sorted(groups.items()):
+        mem = max(ob.get("mem_gb", 2) for ob in group)
+        jobs_g = max(1, min(jobs, int(MEM_BUDGET_GB // mem)))
         outjson = os.path.join(logdir, "kani-%d.json" % cap)
         if os.path.exists(outjson):
             os.unlink(outjson)
         cmd = ["cargo", "kani"] + KANI_FLAGS + ["--target-dir", kani_target(),
-               "--harness-timeout", "%ds" % cap, "-j", str(min(jobs, len(group))),
+               "--harness-timeout", "%ds" % cap, "-j", str(min(jobs_g, len(group))),
                "--output-format", "terse", "--export-json", outjson, "--exact"]
         for ob in group:
             cmd += ["--harness", ob["h"]]
         log("kani: %d obligation(s), cap %ds" % (len(group), cap))
-        rc, out, secs = sh(cmd, cwd=scr.repo, timeout=cap * (1 + len(group) // max(1, jobs)) + 600,
+        rc, out, secs = sh(cmd, cwd=scr.repo, timeout=cap * (1 + len(group) // max(1, jobs_g)) + 600,
                            out=os.path.join(logdir, "kani-%d.log" % cap))
         data = None
         if os.path.exists(outjson):
@@ -174,9 +192,11 @@ def tail_err(out, n=12):
 PLAYBACK_RE = re.compile(r"(/// Test generated for harness `([^`]+)`.*?\n#\[test\]\nfn (\w+)\(\) \{.*?\n\})", re.S)
 
 
-def kani_counterexample(scr, ob, logdir):
-    """Ask Kani for concrete values of the refuted harness, then execute the harness
-    natively (cargo kani playback: real code, real libm, no stubs) on them."""
+MAX_CEX = 6
+
+
+def kani_cex_print(scr, ob, logdir):
+    """step 1 (parallelisable): ask Kani for concrete values of the refuted harness"""
     h = ob.get("cex") or ob["h"]   # plain twin with explicit assertions, where the obligation is a contract harness
     short = h.split("::")[-1]
     cmd = ["cargo", "kani"] + KANI_FLAGS + ["-Z", "concrete-playback", "--concrete-playback=print",
@@ -187,45 +207,58 @@ def kani_counterexample(scr, ob, logdir):
     tests = []
     for m in PLAYBACK_RE.finditer(out):
         block, hname, tname = m.group(1), m.group(2), m.group(3)
-        if "Check for `cover`" in block:
-            continue
+        # Kani prints identical value vectors once, under the first check they witness (possibly a cover),
+        # so cover-labelled tests are kept as candidates; assertion-labelled ones are tried first
         tests.append((tname, block))
-    info = {"obligation": ob["h"], "counterexample_harness": h, "verifier_output": "\n".join(out.split("\n")[-80:]), "tests": [], "confirmed": False}
+    tests.sort(key=lambda tb: 1 if "Check for `cover`" in tb[1] else 0)
+    info = {"obligation": ob["h"], "counterexample_harness": h,
+            "verifier_output": "\n".join(out.split("\n")[-80:]), "tests": [], "confirmed": False}
     if not tests:
         info["note"] = "verifier printed no concrete values"
-        return info
-    if ob.get("no_native_replay"):
+    elif ob.get("no_native_replay"):
         info["tests"] = [dict(name=t, code=b) for t, b in tests[:3]]
         info["note"] = ("harness draws values inside stubs; Kani's concrete values are reported but cannot be "
                         "re-executed without the stubs")
-        return info
-    # append tests to the harness' own file so they can name it unqualified
-    srcfile = os.path.join(scr.repo, "src", ob["file"])
+        tests = []
+    return info, tests
+
+
+def kani_cex_playback(scr, jobs, logdir):
+    """step 2: append all generated tests to their harness files, then execute them natively
+    (cargo kani playback: the real code, real libm, no stubs). jobs: [(ob, info, tests)]"""
     seen = set()
-    code = ""
-    for t, b in tests:
-        if t in seen:
-            continue
-        seen.add(t)
-        code += "\n#[cfg(test)]\n" + b.replace("#[test]\nfn ", "#[test]\npub fn ", 1) + "\n"
-    open(srcfile, "a").write(code)
-    for t in list(seen)[:3]:
-        cmd = ["cargo", "kani", "playback", "-Z", "concrete-playback", "--", t]
-        rc, pout, secs = sh(cmd, cwd=scr.repo, timeout=900, out=os.path.join(logdir, "playback-%s.log" % t),
-                            env=dict(ENV, CARGO_TARGET_DIR=os.path.join(WORK, "target-playback")))
-        failed = bool(re.search(r"test result: FAILED|panicked at", pout))
-        ok = bool(re.search(r"test result: ok. 1 passed", pout))
-        vals = decode_vals([b for (n, b) in tests if n == t][0])
-        info["tests"].append(dict(name=t, concrete_values=vals,
-                                  native_replay="FAILS on the real code (counterexample confirmed)" if failed
-                                  else ("passes on the real code (counterexample lives in the verifier's model only)"
-                                        if ok else "could not be executed"),
-                                  native_output="\n".join([l for l in pout.split("\n") if "panicked" in l or
-                                                            "C" in l[:4] or "test result" in l][-8:])))
-        if failed:
-            info["confirmed"] = True
-            break
-    return info
+    for ob, info, tests in jobs:
+        srcfile = os.path.join(scr.repo, "src", ob["file"])
+        code = ""
+        for t, b in tests:
+            if t in seen:
+                continue
+            seen.add(t)
+            code += "\n#[cfg(test)]\n" + b.replace("#[test]\nfn ", "#[test]\npub fn ", 1) + "\n"
+        if code:
+            open(srcfile, "a").write(code)
+    for ob, info, tests in jobs:
+        order = []
+        for t, b in tests:
+            if t not in order:
+                order.append(t)
+        for t in order[:4]:
+            cmd = ["cargo", "kani", "playback", "-Z", "concrete-playback", "--", t]
+            rc, pout, secs = sh(cmd, cwd=scr.repo, timeout=900, out=os.path.join(logdir, "playback-%s.log" % t),
+                                env=dict(ENV, CARGO_TARGET_DIR=os.path.join(WORK, "target-playback")))
+            failed = bool(re.search(r"test result: FAILED|panicked at", pout))
+            ok = bool(re.search(r"test result: ok. 1 passed", pout))
+            vals = decode_vals([b for (n, b) in tests if n == t][0])
+            info["tests"].append(dict(name=t, concrete_values=vals,
+                                      native_replay="FAILS on the real code (counterexample confirmed)" if failed
+                                      else ("passes on the real code (these values do not violate the clause natively)"
+                                            if ok else "could not be executed"),
+                                      native_output="\n".join([l for l in pout.split("\n") if "panicked" in l or
+                                                                re.match(r"^C\d\d ", l) or "test result: FAILED" in l or
+                                                                "1 passed" in l][-8:])))
+            if failed:
+                info["confirmed"] = True
+                break
 
 
 def decode_vals(block):
@@ -290,6 +323,9 @@ def run_rt(binpath, rob, seed, tier, logdir):
         return dict(status="undecided", detail="rtcheck %s gave no result (rc=%s): %s" % (rob["name"], rc, out[-400:]),
                     secs=secs, evaluations=0, failures=[])
     res["secs"] = secs
+    known_keys = set(k["key"] for k in load_known())
+    res["known_failures"] = [f for f in res.get("failures", []) if isinstance(f, dict) and f.get("key") in known_keys]
+    res["failures"] = [f for f in res.get("failures", []) if not (isinstance(f, dict) and f.get("key") in known_keys)]
     res["status"] = "refuted" if res.get("failures") else "discharged"
     return res
 
@@ -411,11 +447,21 @@ def run_property(pid, P, tier, seed, scr, logdir, a, t0):
 
     # counterexamples + native replay for refuted Kani obligations
     os.makedirs(os.path.join(VERIF, "replays"), exist_ok=True)
-    for ob in kobs:
+    refuted = [ob for ob in kobs if kres[ob["h"]]["status"] == "refuted"]
+    jobs = []
+    if refuted:
+        with ThreadPoolExecutor(max_workers=MAX_CEX) as ex:
+            futs = [ex.submit(kani_cex_print, scr, ob, logdir) for ob in refuted[:MAX_CEX]]
+            for ob, f in zip(refuted[:MAX_CEX], futs):
+                info, tests = f.result()
+                jobs.append((ob, info, tests))
+        kani_cex_playback(scr, jobs, logdir)
+        for ob in refuted[MAX_CEX:]:
+            jobs.append((ob, {"obligation": ob["h"], "confirmed": False, "tests": [],
+                              "note": "counterexample extraction is limited to %d obligations per run; see the other replay "
+                                      "files of this run" % MAX_CEX}, []))
+    for ob, info, tests in jobs:
         r = kres[ob["h"]]
-        if r["status"] != "refuted":
-            continue
-        info = kani_counterexample(scr, ob, logdir)
         info.update(property=pid, clause=ob["clause"], failed_checks=r["detail"], tier=tier,
                     function_under_contract=ob.get("fn", ""))
         path = os.path.join(VERIF, "replays", "%s-%s.json" % (pid, ob["h"].split("::")[-1]))
@@ -448,6 +494,10 @@ def run_property(pid, P, tier, seed, scr, logdir, a, t0):
                     bounded.append(r)
                     log("  %-11s bounded:%s evaluations=%s %s" % (r["status"], rob["name"], r.get("evaluations"),
                                                                    (r.get("detail") or "")[:100]))
+                    for kk in sorted(set(f["key"] for f in r.get("known_failures", []))):
+                        txt = [x for x in load_known() if x["key"] == kk and x["prop"] == pid]
+                        if txt:
+                            print("KNOWN-FINDING: property=%s %s" % (pid, txt[0]["text"]))
                     if r["status"] == "refuted":
                         path = os.path.join(VERIF, "replays", "%s-bounded-%s.json" % (pid, rob["name"]))
                         json.dump(dict(property=pid, obligation="bounded:" + rob["name"], what=rob.get("what", ""),
